@@ -9,8 +9,8 @@
 (* whose spellings, concatenated, are the statement text.                                          *)
 (* TLC checks Skeleton(variant) = Skeleton(base) and Skeleton(mutant) # Skeleton(base), and emits   *)
 (* each text with Rejected(text, Blacklist).                                                       *)
-(*   thorough: every variant (3 casings x 7 gap styles x 4 literal choices x (no comment or one of   *)
-(*   5 comment styles at every token gap)) of 12 base statements, and 5 mutants x 8 spellings;       *)
+(*   thorough: every variant (3 casings x 7 gap styles x 5 literal choices x (no comment or one of   *)
+(*   6 comment styles at every token gap)) of 12 base statements, and 5 mutants x 8 spellings;       *)
 (*   quick: every variant with at most two non-default dimensions plus a sample selected by Seed.    *)
 EXTENDS StmtPolicy, TLC, Json, SequencesExt
 
@@ -24,7 +24,7 @@ Kw(l, u, m) == [k |-> "kw", c |-> l, sp |-> <<l, u, m>>]           \* lower / UP
 Id(v)       == [k |-> "id", c |-> v, sp |-> <<v, v, v>>]
 Op(v)       == [k |-> "op", c |-> v, sp |-> <<v, v, v>>]
 Pun(v)      == [k |-> "pun", c |-> v, sp |-> <<v, v, v>>]
-Lit(a, b, cc, d) == [k |-> "lit", c |-> "?", sp |-> <<a, b, cc, d>>]  \* four alternative values
+Lit(a, b, cc, d, e) == [k |-> "lit", c |-> "?", sp |-> <<a, b, cc, d, e>>]  \* five alternative values
 
 K_SELECT == Kw("select", "SELECT", "SeLeCt")     K_FROM   == Kw("from", "FROM", "FrOm")
 K_WHERE  == Kw("where", "WHERE", "WhErE")        K_AND    == Kw("and", "AND", "AnD")
@@ -37,8 +37,8 @@ K_IN     == Kw("in", "IN", "In")                 K_BETWEEN == Kw("between", "BET
 K_JOIN   == Kw("join", "JOIN", "JoIn")           K_ON     == Kw("on", "ON", "On")
 K_OR     == Kw("or", "OR", "Or")
 
-Num(a)  == Lit(a, "4711", "3.25", "0")
-Str(a)  == Lit(a, "'hello world'", "'it''s'", "'x /* y */ -- z'")
+Num(a)  == Lit(a, "4711", "3.25", "0", "0x1F")
+Str(a)  == Lit(a, "'hello world'", "'it''s'", "'x /* y */ -- z'", "'ABCDEF 1E5'")
 
 Bases == <<
   (* 1 *) <<K_SELECT, Id("c1"), K_FROM, Id("t1"), K_WHERE, Id("id"), Op("="), Num("1")>>,
@@ -58,8 +58,9 @@ Blacklisted == 1..10
 
 (* ---- variants ---- *)
 GapStyles == {"one", "two", "tab", "newline", "crlf", "cr", "tight"}
-CmStyles  == {"none", "spaced", "glued", "dash", "hash", "sqlish"}
-LitChoices == 1..4
+CmStyles  == {"none", "spaced", "glued", "dash", "hash", "sqlish", "long"}
+LitChoices == 1..5
+LongComment == " /* trace: 0123456789abcdef0123456789abcdef0123456789abcdef0123456789abcdef0123456789abcdef0123456789abcdef0123456789abcdef0123456789abcdef0123456789abcdef0123456789abcdef0123456789abcdef0123456789abcdef0123456789abcdef0123456789abcdef0123456789abcdef0123456789abcdef0123456789abcdef0123456789abcdef0123456789abcdef */ "
 
 CsIndex(cs) == CASE cs = "lower" -> 1 [] cs = "upper" -> 2 [] OTHER -> 3
 Spell(t, cs, lit) == IF t.k = "lit" THEN t.sp[lit] ELSE t.sp[CsIndex(cs)]
@@ -77,6 +78,7 @@ CmText(style) == CASE style = "spaced" -> " /* c */ "
                    [] style = "glued"  -> "/*c*/"
                    [] style = "dash"   -> " -- c\n"
                    [] style = "hash"   -> " # c\n"
+                   [] style = "long"   -> LongComment        \* more than 256 bytes (a driver's tracing comment)
                    [] OTHER            -> " /* where id = 1 */ "
 
 TokItem(t, cs, lit) == [k |-> t.k, c |-> t.c, v |-> Spell(t, cs, lit)]
